@@ -14,7 +14,7 @@ import (
 )
 
 func init() {
-	props["C15"] = &propDef{run: runC15, explanation: "Partial (structural agreement of signer and verifier; not the cryptography). Decided statically: (X1) the signer's curve→hash table and the verifier's curve-name→(curve, coordinate width, hash) table agree row by row, every width equals ⌈bit size/8⌉ of the curve named in the same row (specification table P-256:256, P-384:384, P-521:521, secp256k1:256), and the signer pads r and s to ⌈BitSize/8⌉ computed from the key's own curve; (X2) one signingInput function produces the signing input for both signing and verification from (headers, payload); compact serialisation and parsing use the single encoding base64.RawURLEncoding, the separator '.', and exactly three parts; (G1) the verifier slices the signature only behind len(sig) == 2·width, tests the boolean results of ecdsa.Verify / ed25519.Verify, guards the Ed25519 key size, rejects empty signature / payload segments, and SignPayload refuses a signer without an alg header. Not decided: 'verifies iff produced by the matching key over the same bytes' (cryptography,  go-jose key decoding). (K2) JOSE headers on the parse / verify paths are decoded with the go-jose decoder, which refuses duplicate member names (read from the library source): the verified signing input is rebuilt from the parsed header, so anything the decoder drops would be unsigned header content. The C16 rules (JWK coordinate width, padding helpers, strict reading) run inside this check as well. SerializeCompact writes each segment as the unpadded base64url text of its part."}
+	props["C15"] = &propDef{run: runC15, explanation: "Partial (structural agreement of signer and verifier; not the cryptography). Decided statically: (X1) the signer's curve→hash table and the verifier's curve-name→(curve, coordinate width, hash) table agree row by row, every width equals ⌈bit size/8⌉ of the curve named in the same row (specification table P-256:256, P-384:384, P-521:521, secp256k1:256), and the signer pads r and s to ⌈BitSize/8⌉ computed from the key's own curve; (X2) one signingInput function produces the signing input for both signing and verification from (headers, payload); compact serialisation and parsing use the single encoding base64.RawURLEncoding, the separator '.', and exactly three parts; (G1) the verifier slices the signature only behind len(sig) == 2·width, tests the boolean results of ecdsa.Verify / ed25519.Verify, guards the Ed25519 key size, rejects empty signature / payload segments, and SignPayload refuses a signer without an alg header. Not decided: 'verifies iff produced by the matching key over the same bytes' (cryptography,  go-jose key decoding). (K2) JOSE headers on the parse / verify paths are decoded with the go-jose decoder, which refuses duplicate member names (read from the library source): the verified signing input is rebuilt from the parsed header, so anything the decoder drops would be unsigned header content. The C16 rules (JWK coordinate width, padding helpers, strict reading) run inside this check as well. SerializeCompact writes each segment as the unpadded base64url text of its part. A supplied detached payload is the payload on every accepting path; NewJWS stores header maps made for that JWS; the compact form is three dot-separated segments however assembled."}
 	props["C16"] = &propDef{run: runC16, explanation: "Partial (thin). Decided statically: (K1) secp256k1 JWK marshalling pads X and Y (public and private form) through one padding helper with the constant 32 = ⌈256/8⌉, and the helper left-pads to exactly the requested length; (G1) unmarshalling a secp256k1 JWK succeeds only with X and Y present, each of length curveSize(S256) and the point on the curve (IsOnCurve true edge); curveSize is ⌈BitSize/8⌉; (T1) GetPublicKeyJWK's type switch admits exactly ed25519.PublicKey, *rsa.PublicKey and *ecdsa.PublicKey, marks a key as (EC, secp256k1) exactly when its curve is btcec.S256(), and rejects other types; isSecp256k1 compares both kty and crv. Not decided: the NIST and Ed25519 encodings (delegated to go-jose) and round-trip equality. (G2) closed rejection set of the secp256k1 reader: it says no only for a missing coordinate, a coordinate / private value of the wrong width, or a point off the curve (conditions inside helper predicates are followed). (K2) every (*big.Int).Bytes() flows only into a right-aligning sink; (G3) byteBuffer.data is exactly the base64url decoder's result. (*JWK).UnmarshalJSON stores the decoded key-type and curve labels before every accepting exit. The secp256k1 encoder writes the registered key-type and curve names; key conversion functions keep no state between calls."}
 }
 
@@ -101,6 +101,35 @@ func runC15(c *Ctx) {
 		}, pathIs("0")))
 		pp := c.Fn("jwsutil", "parseCompactedPayload")
 		if pp != nil {
+			// a detached payload, when the caller supplies one, IS the payload: every accepting exit that hands back
+			// anything else lies on the "none supplied" side of the test — whatever the payload segment holds
+			{
+				isDet := func(s string) bool { return strings.HasPrefix(s, "len($1.detachedPayload") }
+				okD, w, _ := c.Guard(pp, nil, anyOf("no detached payload supplied",
+					cmpReject("len(detachedPayload) > 0 leads to the detached payload", token.GTR, isDet, pathIs("0")),
+					cmpReject("len(detachedPayload) != 0 leads to the detached payload", token.NEQ, isDet, pathIs("0")),
+					cmpAccept("len(detachedPayload) == 0", token.EQL, isDet, pathIs("0"))), func(in ssa.Instruction) bool {
+					// the places where something other than the detached payload becomes the result: a return of such a
+					// value, or — when the returned value is a φ — the end of each block that feeds it such a value
+					for _, r := range successReturns(pp) {
+						v := returnedValue(r, 0)
+						if phi, isPhi := v.(*ssa.Phi); isPhi {
+							for i, e := range phi.Edges {
+								pred := phi.Block().Preds[i]
+								if c.Path(e, nil) != "$1.detachedPayload" && in == pred.Instrs[len(pred.Instrs)-1] {
+									return true
+								}
+							}
+							continue
+						}
+						if in == ssa.Instruction(r) && c.Path(v, nil) != "$1.detachedPayload" {
+							return true
+						}
+					}
+					return false
+				})
+				c.Check("C15.G1", "parseCompactedPayload:detached-payload-wins", okD, pp.Pos(), "the embedded payload segment is used only when no detached payload was supplied", w...)
+			}
 			c.CheckGuard("C15.G1", "parseCompactedPayload:empty-payload-rejected", pp, nil, anyOf("detached payload supplied, or decoded payload non-empty",
 				cmpAccept("len(detachedPayload) > 0", token.GTR, func(s string) bool { return strings.HasPrefix(s, "len($1.detachedPayload") }, pathIs("0")),
 				cmpReject("len(payload) == 0 rejected", token.EQL, func(s string) bool { return strings.HasPrefix(s, "len((*encoding/base64.Encoding).DecodeString(") }, pathIs("0"))))
@@ -108,39 +137,115 @@ func runC15(c *Ctx) {
 	}
 	c.inlineHelpers = false
 	if ser := c.Method("jwsutil", "JSONWebSignature", "SerializeCompact"); ser != nil {
+		// the returned text, in concatenation form — whether it was written with Sprintf, +, or strings.Join: three
+		// segments separated by "."
+		var segs []string
 		fm := ""
-		forEachInstr(ser, func(in ssa.Instruction) {
-			if cl, ok := in.(*ssa.Call); ok && cl.Call.StaticCallee() != nil && cl.Call.StaticCallee().String() == "fmt.Sprintf" {
-				fm = c.Path(cl.Call.Args[0], nil)
+		for _, r := range successReturns(ser) {
+			parts := strings.Split(c.concatForm(returnedValue(r, 0), nil), " ++ ")
+			if len(parts) == 5 {
+				fm = parts[1] + parts[3]
+				segs = []string{parts[0], parts[2], parts[4]}
+			} else {
+				fm = strings.Join(parts, " ++ ")
 			}
-		})
-		c.Check("C15.X2", "SerializeCompact:format", fm == `"%s.%s.%s"`, ser.Pos(), "compact serialisation format "+fm)
+		}
+		c.Check("C15.X2", "SerializeCompact:format", fm == `"."`+`"."`, ser.Pos(), "compact serialisation is three segments separated by dots: "+fm)
 		// each segment is the unpadded base64url text of its part — the payload too, whatever the headers say (the
 		// parser decodes every segment): "" (detached) or EncodeToString(payload), nothing else
-		okSeg := false
-		var segs []string
-		forEachInstr(ser, func(in ssa.Instruction) {
-			cl, ok := in.(*ssa.Call)
-			if !ok || cl.Call.StaticCallee() == nil || cl.Call.StaticCallee().String() != "fmt.Sprintf" || len(cl.Call.Args) != 2 {
-				return
-			}
-			args, okV := c.varargValues(cl.Call.Args[1])
-			if !okV || len(args) != 3 {
-				return
-			}
-			enc := func(of string) string {
-				return "(*encoding/base64.Encoding).EncodeToString(global:encoding/base64.RawURLEncoding," + of + ")"
-			}
-			for _, a := range args {
-				segs = append(segs, c.Path(a, nil))
-			}
-			okSeg = strings.HasPrefix(segs[0], enc("")[:len(enc(""))-1]) && strings.Contains(segs[0], ".joseHeaders") &&
-				(segs[1] == `phi(""|`+enc("$0.Payload")+`)` || segs[1] == "phi("+enc("$0.Payload")+`|"")`) &&
-				segs[2] == enc("$0.signature")
-		})
+		enc := func(of string) string {
+			return "(*encoding/base64.Encoding).EncodeToString(global:encoding/base64.RawURLEncoding," + of + ")"
+		}
+		okSeg := len(segs) == 3 && strings.HasPrefix(segs[0], enc("")[:len(enc(""))-1]) && strings.Contains(segs[0], ".joseHeaders") &&
+			(segs[1] == `phi(|`+enc("$0.Payload")+`)` || segs[1] == `phi(""|`+enc("$0.Payload")+`)`) &&
+			segs[2] == enc("$0.signature")
 		c.Check("C15.X2", "SerializeCompact:segments", okSeg, ser.Pos(), fmt.Sprintf("segments: %v (expected b64url(headers JSON), \"\" or b64url(payload), b64url(signature))", segs))
 	}
-	c.Min("C15.X2", 8)
+	// the JWS owns the headers it signed: what NewJWS signs and stores is a map made for this JWS, not the caller's map
+	// (SerializeCompact marshals the stored map again later — a caller reusing its header map would change what is
+	// serialised after it was signed)
+	if nj := c.Fn("jwsutil", "NewJWS"); nj != nil {
+		c.Analysed(nj)
+		var fresh func(v ssa.Value, d int) bool
+		fresh = func(v ssa.Value, d int) bool {
+			if d > 3 {
+				return false
+			}
+			switch x := v.(type) {
+			case *ssa.MakeMap:
+				return true
+			case *ssa.ChangeType:
+				return fresh(x.X, d+1)
+			case *ssa.Phi:
+				for _, e := range x.Edges {
+					if !fresh(e, d+1) {
+						return false
+					}
+				}
+				return len(x.Edges) > 0
+			case *ssa.Call:
+				g := x.Call.StaticCallee()
+				if g == nil {
+					return false
+				}
+				if o := g.Origin(); o != nil && pkgPathOf(o) == "maps" && o.Name() == "Clone" {
+					return true
+				}
+				if !inModule(g) || g.Blocks == nil {
+					return false
+				}
+				rs := returnsOf(g)
+				for _, r := range rs {
+					if len(r.Results) != 1 || !fresh(returnedValue(r, 0), d+1) {
+						return false
+					}
+				}
+				return len(rs) > 0
+			}
+			return false
+		}
+		n, bad := 0, 0
+		if jt := c.NamedType("jwsutil", "JSONWebSignature"); jt != nil {
+			for _, a := range allocsOf(nj, jt) {
+				for _, fs := range storesInto(a) {
+					if fs.Field != "ProtectedHeaders" && fs.Field != "joseHeaders" {
+						continue
+					}
+					n++
+					if !fresh(fs.Val, 0) {
+						bad++
+					}
+				}
+			}
+		}
+		// what is signed is what SerializeCompact will write: the headers handed to sign are the stored JOSE headers
+		{
+			var jose ssa.Value
+			if jt := c.NamedType("jwsutil", "JSONWebSignature"); jt != nil {
+				for _, a := range allocsOf(nj, jt) {
+					for _, fs := range storesInto(a) {
+						if fs.Field == "joseHeaders" {
+							jose = fs.Val
+						}
+					}
+				}
+			}
+			okSame, nS := jose != nil, 0
+			if signFn := c.Fn("jwsutil", "sign"); signFn != nil && jose != nil {
+				for _, cl := range callsTo(nj, signFn) {
+					nS++
+					if c.Path(cl.Call.Args[0], nil) != c.Path(jose, nil) && !strings.HasSuffix(c.Path(cl.Call.Args[0], nil), ".joseHeaders") {
+						okSame = false
+					}
+				}
+			}
+			c.Check("C15.X2", "NewJWS:signs-what-it-serialises", okSame && nS == 1, nj.Pos(), "the headers NewJWS hands to sign are the JOSE headers it stores (the ones SerializeCompact marshals)")
+		}
+		c.Check("C15.X2", "NewJWS:owns-its-headers", n >= 2 && bad == 0, nj.Pos(), fmt.Sprintf("the protected / JOSE headers NewJWS stores are maps made for this JWS on every path (%d store(s), %d of a map that may be the caller's)", n, bad))
+	} else {
+		c.Unresolved("C15.X2", "jwsutil.NewJWS")
+	}
+	c.Min("C15.X2", 10)
 
 	// ---- G1
 	vec := c.Fn("jwsutil", "verifyECSignature")
@@ -150,6 +255,18 @@ func runC15(c *Ctx) {
 	if vec == nil || ved == nil || ecV == nil || edV == nil {
 		c.Unresolved("C15.G1", "verifyECSignature / verifyEd25519Signature / ecdsa.Verify / ed25519.Verify")
 	} else {
+		// ed25519.Verify is handed the signature bytes it was given — all of them: the library refuses every length but
+		// 64, which a copy into a fixed-size buffer would undo (the tail of a longer signature would be ignored)
+		{
+			nV, okSig := 0, true
+			for _, cl := range callsTo(ved, edV) {
+				nV++
+				if len(cl.Call.Args) != 3 || c.Path(cl.Call.Args[2], nil) != "$1" {
+					okSig = false
+				}
+			}
+			c.Check("C15.G1", "verifyEd25519Signature:whole-signature-verified", nV > 0 && okSig, ved.Pos(), "ed25519.Verify receives the signature parameter itself")
+		}
 		// the curve's table row: what parseEllipticCurve(jwk.Crv) hands back (a pointer, or a value with an ok flag)
 		pec := c.Fn("jwsutil", "parseEllipticCurve")
 		row := "jwsutil.parseEllipticCurve($0.Crv)"
@@ -434,12 +551,19 @@ func runC16(c *Ctx) {
 							if bi, isB := u.Call.Value.(*ssa.Builtin); isB && bi.Name() == "len" {
 								okUse = true
 							}
+							if _, isPad := c.padSink(u, func(v ssa.Value) bool { return v == ssa.Value(cl) }); isPad {
+								okUse = true
+							}
 							if g := u.Call.StaticCallee(); g != nil {
 								switch {
 								case strings.HasSuffix(g.String(), "FieldVal).SetByteSlice"), strings.HasSuffix(g.String(), "ModNScalar).SetByteSlice"):
 									okUse = true
 								case inModule(g) && len(u.Call.Args) == 2 && u.Call.Args[0] == ssa.Value(cl) && c.leftPads(g):
 									okUse = true
+								case inModule(g) && len(u.Call.Args) == 2:
+									if _, si, into := c.alignsInto(g); into && u.Call.Args[si] == ssa.Value(cl) {
+										okUse = true
+									}
 								}
 							}
 						}
@@ -1035,8 +1159,61 @@ func (c *Ctx) signerVerifierTables(rule string) bool {
 			return inc
 		}
 		okW := 0
-		for _, cl := range callsTo(sign, cp) {
-			w := cl.Call.Args[1]
+		// the padding calls: to the package's padding helper, whatever it is called and whether it takes the bytes or
+		// the integer
+		padCalls := findCalls(sign, func(cl *ssa.Call) bool {
+			g := cl.Call.StaticCallee()
+			if _, _, into := c.alignsInto(g); into {
+				return false // fills a destination it is handed: see below
+			}
+			return g != nil && inModule(g) && len(cl.Call.Args) == 2 && (g == cp || c.leftPads(g))
+		})
+		// or: one zeroed buffer of twice the width, each half filled by a helper that right-aligns its source in the
+		// part it is handed — `sig := make([]byte, 2*w); pad(sig[:w], r); pad(sig[w:], s)`
+		var halfWidths []ssa.Value
+		for _, cl := range findCalls(sign, func(cl *ssa.Call) bool {
+			g := cl.Call.StaticCallee()
+			if g == nil || !inModule(g) || len(cl.Call.Args) != 2 {
+				return false
+			}
+			_, _, ok := c.alignsInto(g)
+			return ok
+		}) {
+			di, _, _ := c.alignsInto(cl.Call.StaticCallee())
+			sl, isSl := cl.Call.Args[di].(*ssa.Slice)
+			if !isSl {
+				continue
+			}
+			ms, isMS := sl.X.(*ssa.MakeSlice)
+			if !isMS {
+				continue
+			}
+			var w ssa.Value
+			switch {
+			case sl.Low == nil && sl.High != nil:
+				w = sl.High
+			case sl.Low != nil && sl.High == nil:
+				w = sl.Low
+			}
+			// the buffer is twice that width
+			if w == nil || (c.Path(ms.Len, nil) != "(2 * "+c.Path(w, nil)+")" && c.Path(ms.Len, nil) != "("+c.Path(w, nil)+" * 2)" && c.Path(ms.Len, nil) != "("+c.Path(w, nil)+" + "+c.Path(w, nil)+")") {
+				continue
+			}
+			halfWidths = append(halfWidths, w)
+		}
+		widthOf := func(cl *ssa.Call) ssa.Value { return cl.Call.Args[1] }
+		type padded struct{ w ssa.Value }
+		var pads []padded
+		for _, cl := range padCalls {
+			pads = append(pads, padded{widthOf(cl)})
+		}
+		if len(padCalls) == 0 {
+			for _, w := range halfWidths {
+				pads = append(pads, padded{w})
+			}
+		}
+		for _, pd := range pads {
+			w := pd.w
 			if ceilOf(sign, w, keyCurve) {
 				okW++
 				continue
@@ -1053,7 +1230,7 @@ func (c *Ctx) signerVerifierTables(rule string) bool {
 					if ci >= 0 {
 						all := len(returnsOf(h)) > 0
 						for _, r := range returnsOf(h) {
-							if len(r.Results) != 1 || !ceilOf(h, r.Results[0], fmt.Sprintf("$%d", ci)) {
+							if len(r.Results) != 1 || !ceilOf(h, r.Results[0], c.Path(h.Params[ci], nil)) {
 								all = false
 							}
 						}
@@ -1079,13 +1256,18 @@ func (c *Ctx) signerVerifierTables(rule string) bool {
 		}
 		c.Check(rule, "signer:digest-of-curve-hash", okH, sign.Pos(), "ecdsa.Sign receives the digest computed with getHasher(key curve)")
 		if cp != nil {
-			t := c.Path(func() ssa.Value {
+			if _, _, into := c.alignsInto(cp); into {
+				c.Check(rule, "copyPadded", true, cp.Pos(), "copyPadded right-aligns its source in the destination it is handed (a zeroed part of the signature buffer)")
+			} else {
+				t := "?"
 				for _, r := range returnsOf(cp) {
-					return r.Results[0]
+					if len(r.Results) > 0 {
+						t = c.Path(r.Results[0], nil)
+					}
+					break
 				}
-				return nil
-			}(), nil)
-			c.Check(rule, "copyPadded", t == "makeslice<[]byte>", cp.Pos(), "copyPadded returns a fresh slice of the requested size: "+t)
+				c.Check(rule, "copyPadded", t == "makeslice<[]byte>", cp.Pos(), "copyPadded returns a fresh slice of the requested size: "+t)
+			}
 		}
 	}
 
@@ -1098,30 +1280,109 @@ func (c *Ctx) leftPads(g *ssa.Function) bool {
 	if g.Blocks == nil || len(g.Params) != 2 {
 		return false
 	}
+	// the bytes padded: the first parameter itself, or the big-endian bytes of a *big.Int first parameter
+	isSrc := func(v ssa.Value) bool {
+		if v == ssa.Value(g.Params[0]) {
+			return true
+		}
+		if cl, ok := v.(*ssa.Call); ok && cl.Call.StaticCallee() != nil && cl.Call.StaticCallee().String() == "(*math/big.Int).Bytes" {
+			return cl.Call.Args[0] == ssa.Value(g.Params[0])
+		}
+		return false
+	}
 	okCopy := false
 	forEachInstr(g, func(in ssa.Instruction) {
-		cl, ok := in.(*ssa.Call)
-		if !ok {
-			return
-		}
-		bi, isB := cl.Call.Value.(*ssa.Builtin)
-		if !isB || len(cl.Call.Args) != 2 {
-			return
-		}
-		switch bi.Name() {
-		case "copy":
-			// dest := make([]byte, n); copy(dest[n-len(data):], data)
-			if sl, isSl := cl.Call.Args[0].(*ssa.Slice); isSl && cl.Call.Args[1] == ssa.Value(g.Params[0]) && sl.Low != nil && sl.High == nil {
-				if ms, isMS := sl.X.(*ssa.MakeSlice); isMS && c.Path(ms.Len, nil) == "$1" && c.Path(sl.Low, nil) == "($1 - len($0))" {
-					okCopy = true
-				}
-			}
-		case "append":
-			// append(make([]byte, n-len(data)), data...)
-			if ms, isMS := cl.Call.Args[0].(*ssa.MakeSlice); isMS && cl.Call.Args[1] == ssa.Value(g.Params[0]) && c.Path(ms.Len, nil) == "($1 - len($0))" {
+		if cl, ok := in.(*ssa.Call); ok {
+			if w, isPad := c.padSink(cl, isSrc); isPad && c.Path(w, nil) == "$1" {
 				okCopy = true
 			}
 		}
 	})
 	return okCopy
+}
+
+// padSink: the builtin call right-aligns a source accepted by isSrc in a zeroed buffer; returns the buffer's width.
+//
+//	dest := make([]byte, n); copy(dest[n-len(src):], src)
+//	append(make([]byte, n-len(src)), src...)
+func (c *Ctx) padSink(cl *ssa.Call, isSrc func(ssa.Value) bool) (ssa.Value, bool) {
+	bi, isB := cl.Call.Value.(*ssa.Builtin)
+	if !isB || len(cl.Call.Args) != 2 || !isSrc(cl.Call.Args[1]) {
+		return nil, false
+	}
+	lenOfSrc := func(v ssa.Value) bool {
+		l, ok := v.(*ssa.Call)
+		if !ok {
+			return false
+		}
+		b, isB := l.Call.Value.(*ssa.Builtin)
+		return isB && b.Name() == "len" && len(l.Call.Args) == 1 && isSrc(l.Call.Args[0])
+	}
+	switch bi.Name() {
+	case "copy":
+		if sl, isSl := cl.Call.Args[0].(*ssa.Slice); isSl && sl.Low != nil && sl.High == nil {
+			if ms, isMS := sl.X.(*ssa.MakeSlice); isMS {
+				if lo, isBO := sl.Low.(*ssa.BinOp); isBO && lo.Op == token.SUB && lo.X == ms.Len && lenOfSrc(lo.Y) {
+					return ms.Len, true
+				}
+			}
+		}
+	case "append":
+		if ms, isMS := cl.Call.Args[0].(*ssa.MakeSlice); isMS {
+			if lo, isBO := ms.Len.(*ssa.BinOp); isBO && lo.Op == token.SUB && lenOfSrc(lo.Y) {
+				return lo.X, true
+			}
+		}
+	}
+	return nil, false
+}
+
+// alignsInto: g(dest, src []byte) (in either order, no result needed) copies src to the END of dest:
+// copy(dest[len(dest)-len(src):], src) — it right-aligns the source in whatever (zeroed) destination it is handed.
+func (c *Ctx) alignsInto(g *ssa.Function) (destIdx, srcIdx int, ok bool) {
+	if g == nil || g.Blocks == nil || len(g.Params) != 2 {
+		return 0, 0, false
+	}
+	idx := func(v ssa.Value) int {
+		for i, p := range g.Params {
+			if v == ssa.Value(p) {
+				return i
+			}
+		}
+		return -1
+	}
+	lenOf := func(v ssa.Value) int {
+		l, isC := v.(*ssa.Call)
+		if !isC {
+			return -1
+		}
+		b, isB := l.Call.Value.(*ssa.Builtin)
+		if !isB || b.Name() != "len" || len(l.Call.Args) != 1 {
+			return -1
+		}
+		return idx(l.Call.Args[0])
+	}
+	found := false
+	forEachInstr(g, func(in ssa.Instruction) {
+		cl, isC := in.(*ssa.Call)
+		if !isC {
+			return
+		}
+		bi, isB := cl.Call.Value.(*ssa.Builtin)
+		if !isB || bi.Name() != "copy" || len(cl.Call.Args) != 2 {
+			return
+		}
+		sl, isSl := cl.Call.Args[0].(*ssa.Slice)
+		si := idx(cl.Call.Args[1])
+		if !isSl || si < 0 || sl.High != nil || sl.Low == nil {
+			return
+		}
+		di := idx(sl.X)
+		lo, isBO := sl.Low.(*ssa.BinOp)
+		if di < 0 || di == si || !isBO || lo.Op != token.SUB || lenOf(lo.X) != di || lenOf(lo.Y) != si {
+			return
+		}
+		destIdx, srcIdx, found = di, si, true
+	})
+	return destIdx, srcIdx, found
 }
